@@ -577,6 +577,7 @@ fn run_scenario(sc: &J) -> J {
     };
     configure_gc(sc);
     let mut compiled: Vec<yarel::memory::Root<yarel::object::ObjFunction>> = Vec::new();
+    let mut held: Vec<yarel::memory::Root<yarel::object::ObjClosure>> = Vec::new();
     for p in programs {
         let kind = p.get("kind").and_then(|k| k.as_str()).unwrap_or("snippet");
         if kind == "newvm" {
@@ -654,6 +655,48 @@ fn run_scenario(sc: &J) -> J {
             let events = SIM.with(|s| std::mem::take(&mut s.borrow_mut().events));
             match r {
                 Ok(_) => outs.push(json!({"events": events, "outcome": {"setprinter": true}})),
+                Err(p) => {
+                    outs.push(json!({"events": events, "outcome": {"panic": panic_msg(p)}}));
+                    std::mem::forget(vm);
+                    return finish(sc, outs);
+                }
+            }
+            continue;
+        }
+        if kind == "hold" {
+            // the host takes a script closure out of a module's globals and keeps it rooted (e.g. a registered callback)
+            let module = p.get("module").and_then(|k| k.as_str()).unwrap_or("main").to_string();
+            let name = p.get("name").and_then(|k| k.as_str()).unwrap_or("").to_string();
+            let r = panic::catch_unwind(panic::AssertUnwindSafe(|| vm.global(&module, &name)));
+            let events = SIM.with(|s| std::mem::take(&mut s.borrow_mut().events));
+            match r {
+                Ok(Some(yarel::value::Value::ObjClosure(c))) => {
+                    held.push(yarel::memory::Root::from(c));
+                    outs.push(json!({"events": events, "outcome": {"held": true}}));
+                }
+                Ok(_) => outs.push(json!({"events": events, "outcome": {"held": false}})),
+                Err(p) => {
+                    outs.push(json!({"events": events, "outcome": {"panic": panic_msg(p)}}));
+                    std::mem::forget(vm);
+                    return finish(sc, outs);
+                }
+            }
+            continue;
+        }
+        if kind == "putback" {
+            // ... and later hands it back to a script as a global
+            let module = p.get("module").and_then(|k| k.as_str()).unwrap_or("main").to_string();
+            let name = p.get("name").and_then(|k| k.as_str()).unwrap_or("").to_string();
+            let slot = p.get("slot").and_then(|k| k.as_u64()).unwrap_or(0) as usize;
+            if slot >= held.len() {
+                outs.push(json!({"events": [], "outcome": {"putback": false}}));
+                continue;
+            }
+            let value = yarel::value::Value::ObjClosure(held[slot].as_gc());
+            let r = panic::catch_unwind(panic::AssertUnwindSafe(|| vm.set_global(&module, &name, value)));
+            let events = SIM.with(|s| std::mem::take(&mut s.borrow_mut().events));
+            match r {
+                Ok(_) => outs.push(json!({"events": events, "outcome": {"putback": true}})),
                 Err(p) => {
                     outs.push(json!({"events": events, "outcome": {"panic": panic_msg(p)}}));
                     std::mem::forget(vm);
